@@ -298,6 +298,23 @@ func (w *Worker) account(c *SimCase, st *CaseStats) {
 		o.Inconclusive["oversize_program_skipped"]++
 		return
 	}
+	if strings.HasPrefix(c.Mutated, "near-miss") {
+		switch {
+		case strings.Contains(c.Mutated, "control=true") && st.Rejected:
+			// the control spelling is well typed: rejections would make the probe vacuous (visible
+			// in the evidence; completeness of the checker is not C01's business)
+			o.Extra["near_miss_controls_REJECTED"]++
+		case strings.Contains(c.Mutated, "control=true"):
+			o.Extra["near_miss_controls_accepted_and_run"]++
+		case st.Rejected:
+			o.Extra["near_miss_programs_rejected_by_real_checker"]++
+		default:
+			o.Extra["near_miss_programs_accepted_and_run"]++
+		}
+		if st.Rejected {
+			return
+		}
+	}
 	if st.Rejected && c.Mutated != "" {
 		o.Extra["mutants_rejected_by_real_checker"]++
 		return
